@@ -23,21 +23,37 @@ pub fn main(tier: &str, seed: u64, n_override: Option<u64>) {
         if !hit0.is_empty() || !und0.is_empty() { continue; }
         let from: Joints = std::array::from_fn(|i| initial[i] - (rng.range(0.02, 0.5) * 512.0).round() / 512.0);
         let to: Joints = std::array::from_fn(|i| initial[i] + (rng.range(0.02, 0.5) * 512.0).round() / 512.0);
+        let mut limits: Option<(Joints, Joints)> = None;
         if rng.below(3) == 0 {
             // limits that cut some of the candidates off
-            let lf: Joints = std::array::from_fn(|i| if rng.below(3) == 0 { initial[i] - 0.01 } else { initial[i] - 1.0 });
-            let lt: Joints = std::array::from_fn(|i| if rng.below(3) == 0 { initial[i] + 0.01 } else { initial[i] + 1.0 });
+            let mut lf: Joints = std::array::from_fn(|i| if rng.below(3) == 0 { initial[i] - 0.01 } else { initial[i] - 1.0 });
+            let mut lt: Joints = std::array::from_fn(|i| if rng.below(3) == 0 { initial[i] + 0.01 } else { initial[i] + 1.0 });
+            let tp = 2.0 * std::f64::consts::PI;
+            match rng.below(4) {
+                0 => {}
+                // the same arcs written one turn away (limits are arcs modulo whole turns)
+                1 => { let sh = if rng.bool() { tp } else { -tp }; for i in 0..6 { if rng.bool() { lf[i] += sh; lt[i] += sh; } } }
+                // the same arcs in the 0..2pi convention: a range straddling zero becomes a wrap-around range (from > to)
+                2 => { for i in 0..6 { lf[i] = lf[i].rem_euclid(tp); lt[i] = lt[i].rem_euclid(tp); } }
+                // a start that is itself outside the limits in one joint
+                _ => { let b = rng.below(6) as usize; lf[b] = initial[b] + 0.005; lt[b] = initial[b] + 1.0; }
+            }
             s.kin.cons = Some(Constraints::new(lf, lt, BY_PREV));
+            limits = Some((lf, lt));
         }
         // expected: candidate k = (joint k/2, target from|to)
         let mut expect: Vec<usize> = Vec::new(); let mut undecided: Vec<usize> = Vec::new();
         let mut tables: Vec<String> = Vec::new(); let mut legal: Vec<bool> = Vec::new();
-        let mut cands: Vec<Joints> = Vec::new();
+        let mut cands: Vec<Joints> = Vec::new(); let mut legal_und: Vec<usize> = Vec::new();
         for k in 0..12 {
             let mut c = initial; c[k / 2] = if k % 2 == 0 { from[k / 2] } else { to[k / 2] };
             cands.push(c);
-            let ok = s.kin.cons.as_ref().map(|cs| cs.compliant(&c)).unwrap_or(true);
+            // legality by the independent arc test (C07's oracle), not by the crate's own compliant()
+            let arc: Vec<Option<bool>> = match &limits { None => vec![Some(true)], Some((lf, lt)) => (0..6).map(|i| crate::c07::on_arc(lf[i], lt[i], c[i], 1e-9)).collect() };
+            let ok = arc.iter().all(|a| *a == Some(true));
+            let arc_undecided = !ok && arc.iter().all(|a| *a != Some(false));
             legal.push(ok);
+            if arc_undecided { undecided.push(k); legal_und.push(k); continue; }
             let (hit, und, rows) = brute(&s, &s.body.safety, &c, 2e-4);
             tables.push(format!("[{}]", rows.join(",")));
             if !ok { continue; }
@@ -52,6 +68,7 @@ pub fn main(tier: &str, seed: u64, n_override: Option<u64>) {
             let gk: Vec<usize> = got.iter().map(|g| cands.iter().position(|c| c == g).unwrap_or(99)).collect();
             for &k in &gk {
                 if k == 99 { fail("C14.offered_vector_is_not_a_single_joint_candidate".into()); continue; }
+                if legal_und.contains(&k) { continue; }
                 if !legal[k] { fail("C14.offered_candidate_outside_limits".into()); }
                 else if !expect.contains(&k) && !undecided.contains(&k) {
                     let (hit, _, _) = brute(&s, &s.body.safety, &cands[k], 2e-4);
